@@ -177,6 +177,10 @@ def bracket(c, modname, name):
     for f in inv_fields:
         c.assume(z3.Not(Val.is_none(pre[f])), "class invariant: a dtype-context field with a non-None default is never None")
     names, args = ctor_args(c, ci)
+    if kind == "_dtype_value_context":
+        # documented domain of the per-dtype values: a float or None
+        for t in list(pre.values()) + [a.t for a in args.values()]:
+            c.assume(z3.Or(Val.is_none(t), Val.is_R(t)), "per-dtype values are floats or None")
 
     exc = c.raises(lambda: it.call(ctx, cls, [args[n] for n in names], {}))
     if exc is not None:
@@ -184,7 +188,16 @@ def bracket(c, modname, name):
         c.prove("ctor_raise_frame", z3.BoolVal(not [w for w in ctx.writes if w[0] == "class"]))
         return
     x = c.last
-    it.call(ctx, c.getattr(x, "__enter__"), [], {})
+    # `warnings.warn` inside __enter__ may raise (warnings-as-errors filter): then __exit__ never runs,
+    # so a raising __enter__ must leave the state untouched
+    it.warn_may_raise = True
+    exc = c.raises(lambda: it.call(ctx, c.getattr(x, "__enter__"), [], {}))
+    it.warn_may_raise = False
+    if exc is not None:
+        c.cover("enter_raises")
+        for f in pre:
+            c.prove(f"enter_raise_frame[{f}]", visible(c, ci, f) == pre[f])
+        return
     c.cover("entered")
 
     # --- observers inside the block -------------------------------------------------------
@@ -419,6 +432,10 @@ def replay_bracket(model, params, clause, info):
             pre[k[4:]] = v
         elif k.startswith("arg."):
             args[k[4:]] = v
+    if clause.startswith("enter_raise_frame"):
+        r = replay_enter_raise(modname, name, pre, args, clause)
+        r["entry"] = {"module": "contracts.C20_settings", "function": "replay_enter_raise", "args": [modname, name, pre, args, clause]}
+        return r
     if clause.startswith("restores") or clause.startswith("ctor_raise") or clause.startswith("inv_preserved"):
         r = replay_bracket_run(modname, name, pre, args, clause)
     else:
@@ -510,3 +527,39 @@ def replay_default(model, params, clause, info):
         return {"violates": None, "detail": "no replay for this clause"}
     return {"violates": not (got == exp), "detail": f"observer returned {got!r}, documented default {exp!r}",
             "entry": {"module": "contracts.C20_settings", "function": "replay_default", "args": [model, list(params), clause, info]}}
+
+
+def replay_enter_raise(modname, name, pre, args, clause):
+    """with warnings promoted to errors, a raising __enter__ must not have changed the state"""
+    import warnings
+    C = _real_class(modname, name)
+    saved = {}
+    for k, v in pre.items():
+        cname, f = k.split(".", 1)
+        if cname == C.__name__:
+            saved[f] = C.__dict__.get(f, _Sentinel("absent"))
+            setattr(C, f, _to_real(v))
+    try:
+        before = {f: getattr(C, f) for f in saved}
+        mgr = C(**{k: _to_real(v) for k, v in args.items()})
+        raised = None
+        with warnings.catch_warnings():
+            warnings.simplefilter("error")
+            try:
+                mgr.__enter__()
+            except Warning as w:
+                raised = w
+        if raised is None:
+            return {"violates": False, "detail": "__enter__ did not raise under warnings-as-errors"}
+        after = {f: getattr(C, f) for f in saved}
+        bad = {f: (before[f], after[f]) for f in before if not (after[f] is before[f] or after[f] == before[f])}
+        return {"violates": bool(bad), "detail": f"__enter__ raised {type(raised).__name__}; fields changed although __exit__ never runs: {bad}" if bad else "state unchanged"}
+    finally:
+        for f, v in saved.items():
+            if isinstance(v, _Sentinel) and v.n == "absent":
+                try:
+                    delattr(C, f)
+                except AttributeError:
+                    pass
+            else:
+                setattr(C, f, v)
